@@ -580,7 +580,17 @@ def known_structure_word_in_comment(case, vio):
     return any(t in MF.STRUCTURE_IN_COMMENT for body in MF.comments_of(case["source"]) for t in body)
 
 
+def known_ub_arithmetic(case, vio):
+    """wraparound arithmetic is implemented with signed overflow / out-of-range shifts / out-of-range float conversions, which are
+    undefined in C++: UBSan ends the process (such programs are not executed in the sanitizer flavour unless forced by a replay)"""
+    if not vio.get("bucket", "").startswith("crash:"):
+        return False
+    m = _model_of(case, calls=True)
+    return bool(m.ub)
+
+
 KNOWN = {
+    "forth_ub_arithmetic": known_ub_arithmetic,
     "forth_structure_word_in_comment": known_structure_word_in_comment,
     "forth_pause_at_steploop_body_end": known_pause_at_steploop_body_end,
     "forth_call_at_do_body_end": known_call_at_do_body_end,
